@@ -15,10 +15,10 @@ pub const DIM_NAMES: [&str; NDIMS] = ["width", "rule", "trace_length", "exemptio
 pub const WIDTHS: [usize; 9] = [2, 1, 7, 8, 9, 16, 17, 64, 255];
 pub const LENS: [usize; 6] = [16, 8, 32, 64, 128, 256];
 pub const TAILS: [Tail; 3] = [Tail::Continue, Tail::Zero, Tail::Random];
-pub const AUXS: [Aux; 8] = [Aux::None, Aux::Sum { cols: 1, rands: 1 }, Aux::Sum { cols: 2, rands: 3 }, Aux::Sum { cols: 1, rands: 0 }, Aux::SumLagrange { cols: 1, rands: 1 }, Aux::SumLagrange { cols: 2, rands: 0 }, Aux::Sum { cols: 1, rands: 1 }, Aux::Sum { cols: 2, rands: 3 }];
+pub const AUXS: [Aux; 11] = [Aux::None, Aux::Sum { cols: 1, rands: 1 }, Aux::Sum { cols: 2, rands: 3 }, Aux::Sum { cols: 1, rands: 0 }, Aux::SumLagrange { cols: 1, rands: 1 }, Aux::SumLagrange { cols: 2, rands: 0 }, Aux::Sum { cols: 1, rands: 1 }, Aux::Sum { cols: 2, rands: 3 }, Aux::Sum { cols: 4, rands: 2 }, Aux::Sum { cols: 3, rands: 4 }, Aux::SumLagrange { cols: 11, rands: 5 }];
 /// degree of the auxiliary transition constraints per auxiliary kind: the last two kinds put the auxiliary
 /// constraints into a higher degree class than the base rule's main constraints (4 and 3 against 2)
-pub const AUX_POWS: [u32; 8] = [1, 1, 1, 1, 1, 1, 4, 3];
+pub const AUX_POWS: [u32; 11] = [1, 1, 1, 1, 1, 1, 4, 3, 1, 1, 1];
 pub const INITS: [u8; 4] = [3, 0, 1, 2];
 pub const QUERIES: [usize; 5] = [3, 1, 2, 27, 255];
 pub const BLOWUPS: [usize; 7] = [4, 2, 8, 16, 32, 64, 128];
@@ -270,6 +270,38 @@ pub fn shape_critical() -> Vec<Point> {
                             }
                         }
                     }
+                }
+            }
+        }
+    }
+    out
+}
+
+/// every rule (constraint degree classes 1..9, i.e. 1..8 composition columns) x every field extension x every auxiliary
+/// kind (auxiliary widths 1..12): the column counts of the extension-field matrices (composition polynomial columns,
+/// auxiliary segment) meet every residue of the 8-column segment width under every extension degree
+pub fn degree_extension_product() -> Vec<Point> {
+    let mut out = vec![];
+    for rule in 0..RULES.len() {
+        for ext in 0..EXTS.len() {
+            for aux in 0..AUXS.len() {
+                for exemptions in [0usize, 2] {
+                    let mut p = base_point();
+                    p.d[1] = rule;
+                    p.d[11] = ext;
+                    p.d[6] = aux;
+                    p.d[3] = exemptions;
+                    if rule == 14 {
+                        p.d[7] = 2;
+                    }
+                    // the smallest blowup of the alphabet that the degree class admits
+                    for b in [0usize, 2, 3] {
+                        p.d[9] = b;
+                        if statement(&p, 0).map(|st| st.opts.admissible(st.spec.n, st.spec.min_blowup())).unwrap_or(false) {
+                            break;
+                        }
+                    }
+                    out.push(p);
                 }
             }
         }
